@@ -6,6 +6,7 @@
     [AdmitJob j] (job-level gate on the sum of the tasks, then per task the
     node-level gate in the running state followed by the allocate handler; a
     refusal leaves the state unchanged) or [Release t] (deallocate handler).
+    Events add Statement.Commit on top: [CommitOk], [BindFail t].
     [charged np qs led q r] is the ground truth: the sum over the ledger
     entries in the subtree of [q] (non-preemptible ones only when [np]). *)
 From Coq Require Import List ZArith QArith.
@@ -83,6 +84,89 @@ Theorem C08_covered_sufficient :
 Proof. exact covered_sufficient. Qed.
 Print Assumptions C08_covered_sufficient.
 
+(** Statement.Commit with failing Cache.Bind calls. An [event] is a decision
+    ([Decide x], the steps above), a commit whose binds all succeed
+    ([CommitOk]: no handler fires) or a commit in which the bind of task [tid]
+    fails ([BindFail tid]: cleanupFailedAllocation un-allocates that one task,
+    the deallocate handlers fire once, Commit drops the remaining operations).
+    On the usage counters a failed bind is exactly the release of that task,
+    and an event list is the step list [steps_of es]. *)
+Theorem C08_bind_failure_is_release :
+  forall (fuel : nat) (s : state) (tid : positive),
+    do_event fuel s (BindFail tid) = do_step fuel s (Release tid).
+Proof. exact bind_fail_is_release. Qed.
+Print Assumptions C08_bind_failure_is_release.
+
+Theorem C08_events_are_steps :
+  forall (fuel : nat) (es : list event) (s : state),
+    run_events fuel s es = run fuel s (steps_of es).
+Proof. exact run_events_steps. Qed.
+Print Assumptions C08_events_are_steps.
+
+(** (1) along every interleaving of decisions, successful commits and commits
+    with bind failures: the counters stay equal to the sum over the tasks
+    currently charged. *)
+Theorem C08_commit_counters_exact :
+  forall (fuel : nat) (s0 s : state) (es : list event),
+    wf_forest (s_queues s0) = true -> counters_exact s0 ->
+    run_events fuel s0 es = Done s -> counters_exact s.
+Proof. exact events_counters_exact. Qed.
+Print Assumptions C08_commit_counters_exact.
+
+(** (2), (3) along every such interleaving: whatever commits failed earlier,
+    an event that raises a queue's charged amount (total, resp.
+    non-preemptible) leaves it within the limit (resp. deserved quota) at
+    every level, when the deciding job is covered. *)
+Theorem C08_commit_limit_quota_partial :
+  forall (np_only : bool) (fuel : nat) (s0 s s' : state) (pre : list event) (e : event),
+    wf_forest (s_queues s0) = true -> counters_exact s0 -> ledger_nonneg s0 = true ->
+    accepts_ok wf_job (steps_of (pre ++ [e])) -> accepts_ok covered (steps_of [e]) ->
+    run_events fuel s0 pre = Done s -> do_event fuel s e = Done s' ->
+    raise_within np_only s s'.
+Proof. exact events_covered. Qed.
+Print Assumptions C08_commit_limit_quota_partial.
+
+(** What a failed bind does to the bookkeeping after any such history: the
+    forest and the exactness of the counters are preserved, charges stay
+    non-negative, no queue's charged amount (total or non-preemptible) goes up
+    at any level, every other charged task -- bound before the failure or left
+    allocated after it -- stays charged, nothing new is charged, and (task ids
+    being unique in the ledger) the failing task is no longer charged. *)
+Theorem C08_bind_failure_preserves :
+  forall (fuel : nat) (s0 s s' : state) (pre : list event) (tid : positive),
+    wf_forest (s_queues s0) = true -> counters_exact s0 -> ledger_nonneg s0 = true ->
+    accepts_ok wf_job (steps_of pre) ->
+    run_events fuel s0 pre = Done s -> do_event fuel s (BindFail tid) = Done s' ->
+    wf_forest (s_queues s') = true /\ counters_exact s' /\ ledger_nonneg s' = true /\
+    (forall k q, In q (s_queues s) -> forall r,
+       charged k (s_queues s') (s_ledger s') (q_id q) r <= charged k (s_queues s) (s_ledger s) (q_id q) r) /\
+    (forall x, In x (s_ledger s) -> e_task x <> tid -> In x (s_ledger s')) /\
+    (forall x, In x (s_ledger s') -> In x (s_ledger s)) /\
+    (NoDup (map e_task (s_ledger s)) -> forall x, In x (s_ledger s') -> e_task x <> tid).
+Proof. exact bind_failure_preserves. Qed.
+Print Assumptions C08_bind_failure_preserves.
+
+(** Non-vacuity of the commit events: a two-task job fills the leaf to its
+    limit 1/2; the bind of its first task fails: only the second task stays
+    charged (1/4 at the leaf and at its parent); a half-GPU job is still
+    refused, a quarter-GPU job is accepted and committed, ending exactly at
+    the limit with exact counters; a bind failure of an uncharged task changes
+    nothing. *)
+Theorem C08_bind_failure_nonvacuous :
+  wf_job two_job = true /\ covered two_job = true /\ wf_job quarter_job = true /\ covered quarter_job = true /\
+  run_events 3 w_state [Decide (AdmitJob two_job); BindFail 11] = Done bf_mid /\
+  map e_task (s_ledger bf_mid) = [12%positive] /\
+  charged false (s_queues bf_mid) (s_ledger bf_mid) 2 GPU == 1 # 4 /\
+  charged false (s_queues bf_mid) (s_ledger bf_mid) 1 GPU == 1 # 4 /\
+  admit_job 3 (s_queues bf_mid) ok_job = Done (Refused (OverLimit 2)) /\
+  run_events 3 bf_mid [Decide (AdmitJob quarter_job); CommitOk] = Done bf_end /\
+  map e_task (s_ledger bf_end) = [13%positive; 12%positive] /\
+  charged false (s_queues bf_end) (s_ledger bf_end) 2 GPU == 1 # 2 /\
+  counters_exact bf_end /\
+  do_event 3 bf_end (BindFail 99) = Done bf_end.
+Proof. exact bind_fail_nonvacuous. Qed.
+Print Assumptions C08_bind_failure_nonvacuous.
+
 (** Parent-chain walks: whenever following parent links terminates at all, it
     terminates within |queues|+1 steps, so [wf_forest] (decidable) is exactly
     "no cycle is reachable". *)
@@ -96,8 +180,8 @@ Print Assumptions C08_fuel_suffices.
     that is accepted and raises the leaf and its parent up to the cap; the same
     job is then refused; a release makes room again; the witness job is
     well-formed and not covered; on a cyclic map the forest predicate is false
-    and the gate runs out of fuel; a job in an unknown queue makes the handler
-    panic. *)
+    and the gate runs out of fuel; a job in an unknown queue charges
+    nothing (the handler returns; it was a nil dereference before /repo 0ac7c83). *)
 Theorem C08_nonvacuous :
   wf_forest (s_queues w_state) = true /\ counters_exact w_state /\ ledger_nonneg w_state = true /\
   wf_job ok_job = true /\ covered ok_job = true /\ wf_job w_job = true /\ covered w_job = false /\
@@ -110,6 +194,6 @@ Theorem C08_nonvacuous :
   run 3 w_state [AdmitJob ok_job; Release 7; AdmitJob ok_job] = Done ok_after /\
   wf_forest cyclic = false /\
   is_job_over_queue_capacity 3 cyclic 1 true [ok_task] = OutOfFuel /\
-  alloc_handler 3 (s_queues w_state) 9 true rq_zero = Panic.
+  alloc_handler 3 (s_queues w_state) 9 true rq_zero = Done (s_queues w_state).
 Proof. exact nonvacuous. Qed.
 Print Assumptions C08_nonvacuous.
